@@ -182,6 +182,7 @@ pub fn explore(args: &[String]) -> i32 {
   let lock_cal = calibrate_locks(watchdog);
   let lock_slot = |addr: usize| -> usize { lock_cal.iter().position(|a| *a == addr && addr != 0).unwrap_or(3) };
   let leap = Leap::build();
+  crate::gen::build_holidays();
   let pool = gen_pool(seed, pool_size, &leap);
   let pool_keys: HashSet<String> = pool.iter().map(|q| q.key()).collect();
 
@@ -712,6 +713,7 @@ pub fn longrun(args: &[String]) -> i32 {
   install_hooks();
   reset_library();
   let leap = Leap::build();
+  crate::gen::build_holidays();
   // the query list is a function of the seed only
   let mut rng = Rng::new(mix(mix(seed, 0x6c6f6e6772756e), ref_num * 1000 + ref_den));
   let kinds: Vec<usize> = (0..KINDS.len()).filter(|k| KINDS[*k].name != "PROVIDER" && KINDS[*k].cost < 2).collect();
